@@ -1402,8 +1402,9 @@ class AgProtocol(utils.EventEmitter):
         self.emit(self.EVENT_CODEC_NEGOTIATION, self.active_codec)
 
     def _on_bvra(self, vrec: bytes) -> None:
+        state = VoiceRecognitionState(int(vrec))
         self.send_ok()
-        self.emit(self.EVENT_VOICE_RECOGNITION, VoiceRecognitionState(int(vrec)))
+        self.emit(self.EVENT_VOICE_RECOGNITION, state)
 
     def _on_chld(self, operation_code: bytes) -> None:
         call_index: int | None = None
